@@ -31,9 +31,11 @@ ASSUMPTIONS = ['cases whose rounded metric equals the threshold are not generate
                'the fixed-mode evaluation on a fresh deep copy of the designed network is the reference for what a '
                'mode achieves on a route', 'figures compared to 1e-6 dB']
 REQUIRED_COUNTERS = {'receiver_gsnr_checks': 60, 'penalty_checks': 60, 'fixed_verdict_checks': 60,
-                     'auto_selection_checks': 20, 'thresholds_within_half_db': 30, 'penalty_out_of_table': 2}
+                     'auto_selection_checks': 20, 'thresholds_within_half_db': 30, 'penalty_out_of_table': 2,
+                     'worst_channel_is_not_lowest_gsnr': 2}
 CASE_TIMEOUT = {'quick': 300, 'thorough': 600}
 TRX = 'vfTrx'
+ALT = {}
 
 
 def plan(tier, seed):
@@ -103,7 +105,8 @@ def build(rng, kind):
     modes = gen_modes(rng, kind)
     ej['Transceiver'].append({'type_variety': TRX, 'frequency': {'min': 191.35e12, 'max': 196.1e12}, 'mode': modes})
     tj, _ = G.gen_topology(rng, n_sites=rng.randint(2, 4), max_spans=3, whole_km=True, max_km=120,
-                           user_amps=rng.random() < 0.5, per_degree=False)
+                           user_amps=rng.random() < 0.5, per_degree=False,
+                           dispersion_variants=kind == 'penalty' and rng.random() < 0.7)
     if kind == 'penalty' and rng.random() < 0.5:
         # negative-dispersion fibre: the accumulated CD can fall below the first point of a penalty table
         ej['Fiber'].append({'type_variety': 'NDF', 'dispersion': -6e-06, 'effective_area': 72e-12, 'pmd_coef': 1.265e-15})
@@ -200,6 +203,9 @@ def check_receiver(ctx, ej, tj, path, mode, where):
     if not np.all((np.isinf(tot) & np.isinf(got_tot)) | (np.abs(np.where(np.isinf(tot), 0, tot) -
                                                                 np.where(np.isinf(got_tot), 0, got_tot)) < 1e-9)):
         ctx.violation('penalty', f'{where}: total penalty {got_tot[:3]} != sum of the tables {tot[:3]}')
+    # metric of the channel a careless implementation would look at (the lowest GSNR) - used to aim thresholds
+    alt = float((exp - tot)[int(np.argmin(exp))])
+    ALT[where] = alt
     return float(np.min(exp - tot))
 
 
@@ -223,6 +229,22 @@ def run_case(case, ctx):
         fit = [m for m in modes if m['min_spacing'] <= spacing]
         if not fit:
             continue
+        if case['kind'] == 'penalty' and rng.random() < 0.6:
+            # put the sloped part of the CD penalty tables across the CD values this route really accumulates, so
+            # that the penalty differs from channel to channel
+            req = S.request('cd', a, z, trx_type=TRX, trx_mode=fit[0]['format'], spacing=spacing, bidir=False, max_nb=nb)
+            eqp, net, rqs, prop, rprop, res = run_planning(ej, network, [req])
+            if prop[0]:
+                cd = np.asarray(prop[0][-1].chromatic_dispersion, dtype=float)
+                lo, hi = float(np.min(cd)), float(np.max(cd))
+                if hi - lo > 50 and lo > 0:
+                    for m in modes:
+                        pen = [q for q in m.get('penalties', []) if 'chromatic_dispersion' not in q]
+                        pen += [{'chromatic_dispersion': round(lo * 0.6, 1), 'penalty_value': 0},
+                                {'chromatic_dispersion': round(hi + (hi - lo) * 0.3, 1),
+                                 'penalty_value': G.pick(rng, [1.0, 2.0, 3.0])}]
+                        m['penalties'] = pen
+                    ctx.count('cd_tables_aimed_at_route')
         # ---- probe: every candidate mode through the fixed-mode flow on a fresh copy
         probes = {}
         for m in fit:
@@ -233,7 +255,10 @@ def run_case(case, ctx):
             metric_f = check_receiver(ctx, ej, tj, prop[0], m, f'probe {m["format"]} {a}->{z}')
             metric_r = check_receiver(ctx, ej, tj, rprop[0], m, f'probe {m["format"]} {z}->{a}') if bidir and rprop[0] \
                 else None
-            probes[m['format']] = {'f': metric_f, 'r': metric_r, 'snr01': float(np.mean(prop[0][-1].snr_01nm)),
+            alts = [ALT.get(f'probe {m["format"]} {a}->{z}')] + ([ALT.get(f'probe {m["format"]} {z}->{a}')]
+                                                                 if metric_r is not None else [])
+            probes[m['format']] = {'f': metric_f, 'r': metric_r, 'alt': min(x for x in alts if x is not None),
+                                   'snr01': float(np.mean(prop[0][-1].snr_01nm)),
                                    'min01': float(np.min(prop[0][-1].snr_01nm)),
                                    'route': [n.uid for n in prop[0]]}
         if ctx.violations or not probes:
@@ -254,6 +279,11 @@ def run_case(case, ctx):
             delta = G.pick(rng, [-0.5, -0.02, 0.02, 0.5, -3, 3, 0.02, -0.02, 0.3, -0.3])
             # threshold placed relative to the forward metric (automatic selection looks at the forward direction)
             base = round(pr['f'], 2)
+            if not math.isinf(pr['alt']) and pr['alt'] - worst > 0.05 and pr['r'] is None:
+                # the worst channel after penalties is not the lowest-GSNR channel: aim between the two
+                ctx.count('worst_channel_is_not_lowest_gsnr')
+                if rng.random() < 0.6:
+                    delta = -round((pr['alt'] - worst) / 2, 3)
             m['OSNR'] = round(base - margin - delta, 6)
             thr[m['format']] = m['OSNR'] + margin
             if abs(delta) <= 0.5:
